@@ -126,6 +126,20 @@ func c03Tampers() []c03Tamper {
 	}
 	return []c03Tamper{
 		{"none", func(c *vCase, m, o *pb.Message, k []crypto.PrivKey, s peer.ID) {}},
+		// stripped down to what an anonymous publisher sends, plus at most one authentication field
+		{"anonymous_bare", func(c *vCase, m, o *pb.Message, k []crypto.PrivKey, s peer.ID) {
+			m.From, m.Seqno, m.Signature, m.Key = nil, nil, nil, nil
+		}},
+		{"anonymous_plus_seqno", func(c *vCase, m, o *pb.Message, k []crypto.PrivKey, s peer.ID) {
+			m.From, m.Signature, m.Key = nil, nil, nil
+		}},
+		{"anonymous_plus_from", func(c *vCase, m, o *pb.Message, k []crypto.PrivKey, s peer.ID) {
+			m.Seqno, m.Signature, m.Key = nil, nil, nil
+		}},
+		{"anonymous_plus_key", func(c *vCase, m, o *pb.Message, k []crypto.PrivKey, s peer.ID) {
+			b, _ := crypto.MarshalPublicKey(k[0].GetPublic())
+			m.From, m.Seqno, m.Signature, m.Key = nil, nil, nil, b
+		}},
 		{"flip_data", func(c *vCase, m, o *pb.Message, k []crypto.PrivKey, s peer.ID) { m.Data = flip(m.Data, c) }},
 		{"extend_data", func(c *vCase, m, o *pb.Message, k []crypto.PrivKey, s peer.ID) {
 			m.Data = append(append([]byte(nil), m.Data...), 'z')
